@@ -1,5 +1,5 @@
 (* C01 - CTAP2 request decoding is faithful to the specification's parameter tables. *)
-From Ctap Require Import Base Schema Wire Utf8 Typed Procs Inst Tables ProcTables Finite CborItem WireP SkipP TypedP EntriesP FramingP C11P WellTyped SerP RoundTripP ObRequestSide ObOpTables ObEnvRt AgreeP ObRequestAgree FnShapes Shapes ObShapeRequest Deps ObDeps ObShapeStrings ObShapeFilters.
+From Ctap Require Import Base Schema Wire Utf8 Typed Procs Inst Tables ProcTables Finite CborItem WireP SkipP TypedP EntriesP FramingP C11P WellTyped SerP RoundTripP ObRequestSide ObOpTables ObEnvRt AgreeP ObRequestAgree FnShapes Shapes ObShapeRequest Deps ObDeps ObShapeStrings ObShapeFilters ObShapeTablesOp ObShapeTablesReq.
 Local Open Scope string_scope.
 Local Open Scope Z_scope.
 
@@ -129,7 +129,7 @@ Theorem c01_modelled_functions_unchanged_request : shapes_hold fn_shapes shapes_
 Proof. exact generated_shapes_request. Qed.
 
 (* the third-party crates the model represents by hand are pinned at the versions it was written against *)
-Theorem c01_modelled_dependencies_pinned : deps_hold lock_versions cargo_deps = true.
+Theorem c01_modelled_dependencies_pinned : deps_hold repo_lock_present lock_versions harness_lock_versions cargo_deps = true.
 Proof. exact generated_deps. Qed.
 
 (* further hand-modelled functions this property rests on *)
@@ -137,6 +137,13 @@ Theorem c01_modelled_functions_unchanged_strings : shapes_hold fn_shapes shapes_
 Proof. exact generated_shapes_strings. Qed.
 Theorem c01_modelled_functions_unchanged_filters : shapes_hold fn_shapes shapes_filters = true.
 Proof. exact generated_shapes_filters. Qed.
+
+(* lookup tables, accessors, builders and further generators this property rests on *)
+Theorem c01_modelled_functions_unchanged_tables_op : shapes_hold fn_shapes shapes_tables_op = true.
+Proof. exact generated_shapes_tables_op. Qed.
+
+Theorem c01_modelled_functions_unchanged_tables_req : shapes_hold fn_shapes shapes_tables_req = true.
+Proof. exact generated_shapes_tables_req. Qed.
 
 Eval vm_compute in "ASSUMPTIONS c01_indexed_map_faithful". Print Assumptions c01_indexed_map_faithful.
 Eval vm_compute in "ASSUMPTIONS c01_text_map_faithful". Print Assumptions c01_text_map_faithful.
@@ -153,3 +160,5 @@ Eval vm_compute in "ASSUMPTIONS c01_generated_model_is_spec_model". Print Assump
 Eval vm_compute in "ASSUMPTIONS c01_modelled_dependencies_pinned". Print Assumptions c01_modelled_dependencies_pinned.
 Eval vm_compute in "ASSUMPTIONS c01_modelled_functions_unchanged_strings". Print Assumptions c01_modelled_functions_unchanged_strings.
 Eval vm_compute in "ASSUMPTIONS c01_modelled_functions_unchanged_filters". Print Assumptions c01_modelled_functions_unchanged_filters.
+Eval vm_compute in "ASSUMPTIONS c01_modelled_functions_unchanged_tables_op". Print Assumptions c01_modelled_functions_unchanged_tables_op.
+Eval vm_compute in "ASSUMPTIONS c01_modelled_functions_unchanged_tables_req". Print Assumptions c01_modelled_functions_unchanged_tables_req.
